@@ -17,7 +17,7 @@ Proof. split; [exact glibc_enc_scalar|exact glibc_dec_enc]. Qed.
 (* ---- abstraction ------------------------------------------------------------------------------------ *)
 Lemma repr_cps s cs : repr s cs -> cps s = Some cs.
 Proof.
-  intros H. destruct cs as [|c cs]; [rewrite (repr_nil _ H); reflexivity|].
+  intros H. destruct cs as [|c cs]; [destruct (repr_nil _ H) as [-> | ->]; reflexivity|].
   pose proof (repr_tchars _ _ H) as T. rewrite (repr_open _ _ _ H). unfold cps. rewrite is_null_block. cbn [bytes].
   rewrite c_string_nz by (apply E_bytes, T). apply decode_E, T.
 Qed.
@@ -29,12 +29,14 @@ Proof.
 Qed.
 Lemma repr_fun s cs1 cs2 : repr s cs1 -> repr s cs2 -> cs1 = cs2.
 Proof. intros H1 H2. apply repr_cps in H1, H2. congruence. Qed.
-Lemma wf_cap s cs : repr s cs -> cap s = (match cs with [] => 0 | _ => len (E cs) + 1 end).
-Proof. intros H. destruct cs; [rewrite (repr_nil _ H); reflexivity|rewrite (repr_open _ _ _ H); reflexivity]. Qed.
+Lemma wf_cap s cs : repr s cs -> match cs with [] => cap s = 0 \/ cap s = 1 | _ => cap s = len (E cs) + 1 end.
+Proof.
+  intros H. destruct cs; [destruct (repr_nil _ H) as [-> | ->]; [left|right]; reflexivity|rewrite (repr_open _ _ _ H); reflexivity].
+Qed.
 (* what well-formedness means for the capacity: exactly the C string length plus one *)
 Lemma wf_strlen s : wf s -> is_null s = false -> c_strlen (bytes s) = Ok (cap s - 1).
 Proof.
-  intros [cs H] N. destruct cs as [|c cs]; [rewrite (repr_nil _ H) in N; discriminate N|].
+  intros [cs H] N. destruct cs as [|c cs]; [destruct (repr_nil _ H) as [-> | ->]; [discriminate N|reflexivity]|].
   rewrite (repr_open _ _ _ H). cbn [bytes cap]. rewrite c_strlen_nz by (apply E_bytes, (repr_tchars _ _ H)).
   f_equal. lia.
 Qed.
@@ -90,7 +92,7 @@ Section WithCodec.
     srel st sst -> text_guard sst o = true -> step_rel (step enc dec st o) (sstep sst o).
   Proof.
     intros Hrel Gt. unfold text_guard in Gt.
-    destruct o as [r bs|r a|r a b|r a c|r c a|r a i j|r c|r c i|a i|a|a b|a|a]; cbn [step sstep in_text] in *.
+    destruct o as [r bs|r a|r a b|r a c|r c a|r a i j|r c|r c i|r|a i|a|a b|a|a]; cbn [step sstep in_text] in *.
     - destruct (decode bs) as [cs|] eqn:D; [|discriminate Gt]. apply decode_sound in D. destruct D as [-> T].
       pose proof (from_constant_repr cs T) as R. producer R. split; [apply upd_rel; assumption|reflexivity].
     - rewrite (deep_copy_repr _ _ (reg_rel _ _ a Hrel)). cbn [bind step_rel].
@@ -114,6 +116,7 @@ Section WithCodec.
       destruct (replace_char_in_string enc (reg st r) c i) as [v| | | |], (if tchar c then s_replace (sreg sst r) c i else Err) as [w| | | |];
         cbn [rres] in R; try contradiction; cbn [bind step_rel]; auto.
       split; [apply upd_rel; assumption|reflexivity].
+    - cbn [step_rel]. split; [apply upd_rel; [assumption|apply repr_owned_empty]|reflexivity].
     - rewrite (string_index_repr dec dec_ok _ _ i (reg_rel _ _ a Hrel)).
       unfold s_index. destruct ((1 <=? i) && (i <=? clen (sreg sst a))); cbn [bind step_rel]; auto.
     - rewrite (string_length_repr _ _ (reg_rel _ _ a Hrel)). cbn [bind step_rel]. auto.
@@ -162,7 +165,7 @@ Proof. intros W. apply wf_strlen in W; [|reflexivity]. vm_compute in W. discrimi
 Lemma shrunk_consequence :
   (r <- string_string_verkettet shrunk_example (mkstr [88; 0] 2) ;; print_text r) = Ok (E [97; 98]) /\
   string_iterate glibc_dec shrunk_example = Stuck /\
-  string_equal false shrunk_example (mkstr [97; 98; 0] 3) = OOB.
+  string_equal_old false shrunk_example (mkstr [97; 98; 0] 3) = OOB.
 Proof. vm_compute. auto. Qed.
 (* the same input through the current definition *)
 Lemma new_replace_shorter_example :
@@ -174,7 +177,7 @@ Lemma old_replace_shorter_refuted :
     replace_char_in_string_old glibc_enc s ch i = Ok s' /\ ~ wf s' /\
     (r <- string_string_verkettet s' (mkstr [88; 0] 2) ;; print_text r) = Ok (E [97; 98]) /\
     string_iterate glibc_dec s' = Stuck /\
-    string_equal false s' (mkstr [97; 98; 0] 3) = OOB /\
+    string_equal_old false s' (mkstr [97; 98; 0] 3) = OOB /\
     replace_char_in_string glibc_enc s ch i = Ok (mkstr [97; 98; 0] 3).
 Proof.
   exists (mkstr (E [228; 98] ++ [0]) 4), [228; 98], 97, 1, shrunk_example.
@@ -182,6 +185,15 @@ Proof.
   exact (conj shrunk_source_repr (conj eq_refl (conj old_replace_shorter_example (conj shrunk_not_wf
           (conj C1 (conj C2 (conj C3 new_replace_shorter_example))))))).
 Qed.
+
+(* ---- why ddp_string_equal compares strlen bytes (the definition before the fix compared str1->cap bytes) --- *)
+Lemma old_equal_empty_refuted :
+  repr owned_empty [] /\ repr empty_string [] /\
+  string_equal_old false owned_empty empty_string = OOB /\
+  string_equal_old false empty_string owned_empty = Ok true /\
+  string_equal false owned_empty empty_string = Ok true /\
+  string_equal false empty_string owned_empty = Ok true.
+Proof. repeat split; try apply repr_owned_empty; try apply repr_empty; vm_compute; reflexivity. Qed.
 
 (* ---- every operation keeps every register well formed, for every ddpchar --------------------------------- *)
 Lemma srel_wf st sst : srel st sst -> Forall wf st.
